@@ -1,5 +1,301 @@
-(* stub while the model is being tied; replaced below *)
-From BV Require Import Model.Fnmatch Theory.Fnmatch.
-Theorem C49_fnmatch_correct : forall name pat, fnmatch name pat = true <-> gm (translate pat) name.
+(* Properties/C49.v -- Configuration values resolve by location and round-trip through files.
+   Statements only; proofs in Theory/{Fnmatch,ConfigLoc,ConfigValue}.v, models in
+   Model/{Fnmatch,ConfigLoc}.v.
+
+   Vocabulary.  Strings are lists of code points.  [parts s] = s.rstrip("/").split("/").
+   [fnm l s] : location segment l matches section-name segment s (Python fnmatch).
+   A store = optional no-name section + named sections in file order.
+   [get_matching_sections] = LocationMatcher._get_matching_sections (pairs (number of
+   parts, LocationSection)); [key_ltb] = the sort key (number of parts, section id)
+   compared as Python compares it; [ignores s] = bool_from_string(s.get("ignore_parents"))
+   is True; [ls_get s name] = LocationSection.get(name) (policy + local references
+   applied); [resolve_loc] = the value Stack.get finds in the location sections.
+   [url_join], [url_basename] : dromedary's urlutils.join / basename -- ANY functions
+   (environment; the theorems do not depend on what they compute). *)
+From Coq Require Import NArith Bool String Ascii PeanoNat List Permutation Sorted.
+From BV Require Import Lib.Bytes Model.Fnmatch Theory.Fnmatch Model.ConfigLoc
+                       Theory.ConfigLoc Theory.ConfigValue.
+Import ListNotations.
+Open Scope list_scope.
+Open Scope N_scope.
+
+(* ---- glob matching of one segment ------------------------------------------------------- *)
+(* the executable matcher decides exactly the declarative language of the pattern *)
+Theorem C49_fnmatch_correct : forall name pat,
+  fnmatch name pat = true <-> gm (translate pat) name.
 Proof. exact fnmatch_correct. Qed.
 Print Assumptions C49_fnmatch_correct.
+
+(* a segment without * ? [ matches exactly itself *)
+Theorem C49_fnmatch_plain : forall name pat,
+  plain pat = true -> (fnmatch name pat = true <-> name = pat).
+Proof. exact fnmatch_plain. Qed.
+Print Assumptions C49_fnmatch_plain.
+
+(* ---- matching is a component-wise prefix match ------------------------------------------- *)
+(* _iter_for_location_by_parts yields (section, extra_path, n) exactly for the
+   sections whose parts match, segment by segment, a prefix [pre] of the
+   location's parts; extra_path is the "/"-join of the unmatched suffix and n the
+   number of matched parts *)
+Theorem C49_match_is_componentwise_prefix : forall secs loc sec extra n,
+  In (sec, extra, n) (iter_for_location_by_parts secs loc) <->
+  In sec secs /\
+  exists pre suf, parts loc = pre ++ suf /\ Forall2 fnm pre (parts sec) /\
+                  extra = join [cSL] suf /\ n = length pre.
+Proof. exact iter_spec. Qed.
+Print Assumptions C49_match_is_componentwise_prefix.
+
+(* ... in file order *)
+Theorem C49_match_keeps_file_order : forall secs loc,
+  map (fun t => fst (fst t)) (iter_for_location_by_parts secs loc) =
+  filter (fun sec => sec_match (parts loc) (parts sec)) secs.
+Proof. exact iter_order. Qed.
+Print Assumptions C49_match_keeps_file_order.
+
+(* glob-free section names: the section's parts are literally a prefix *)
+Theorem C49_match_plain_prefix : forall lp sp,
+  Forall (fun s => plain s = true) sp ->
+  (sec_match lp sp = true <-> exists suf, lp = sp ++ suf).
+Proof. exact sec_match_plain. Qed.
+Print Assumptions C49_match_plain_prefix.
+
+Section Env.
+  Variable url_join : str -> str -> str.
+  Variable url_basename : str -> str.
+
+  (* the sections LocationMatcher works with are the ones _iter_for_location_by_parts
+     selects (the "resync" loop), in the same order, with the same extra_path *)
+  Theorem C49_matcher_uses_iter : forall st location,
+    map (fun p => (ls_id (snd p), ls_extra (snd p), fst p))
+        (named_matching url_basename st location) =
+    iter_for_location_by_parts (map fst (st_named st)) location.
+  Proof. exact (named_matching_iter url_basename). Qed.
+
+  (* ---- appendpath / relpath use exactly the unmatched suffix ------------------------------ *)
+  (* every named matching section carries extra_path = join of the unmatched parts *)
+  Theorem C49_extra_path : forall st location n s,
+    In (n, s) (named_matching url_basename st location) ->
+    In (ls_id s, ls_opts s) (st_named st) /\
+    exists pre suf, parts location = pre ++ suf /\ Forall2 fnm pre (parts (ls_id s)) /\
+                    ls_extra s = join [cSL] suf /\ n = length pre /\
+                    ls_branch s = url_basename location.
+  Proof. exact (named_matching_spec url_basename). Qed.
+
+  (* appendpath: the value is url_join(value, extra_path) -- then local references *)
+  Theorem C49_appendpath : forall ls name v,
+    lookup name (ls_opts ls) = Some v ->
+    ls_get url_join url_basename ls (name ++ policy_suffix) = Some appendpath ->
+    ls_get url_join url_basename ls name =
+    Some (expand_locals url_basename ls (url_join v (ls_extra ls))).
+  Proof. exact (ls_get_appendpath url_join url_basename). Qed.
+
+  (* {relpath} is the extra_path, {basename} its basename, {branchname} the branch name *)
+  Theorem C49_relpath : forall ls,
+    expand_locals url_basename ls (lit "{relpath}") = ls_extra ls /\
+    expand_locals url_basename ls (lit "{basename}") = url_basename (ls_extra ls) /\
+    expand_locals url_basename ls (lit "{branchname}") = ls_branch ls.
+  Proof.
+    intro ls. split; [apply expand_relpath|split; [apply expand_basename|apply expand_branchname]].
+  Qed.
+
+  (* without a policy and without '{' the stored text is returned as it is *)
+  Theorem C49_plain_value_unchanged : forall ls name v,
+    lookup name (ls_opts ls) = Some v ->
+    lookup (name ++ policy_suffix) (ls_opts ls) = None ->
+    memb 123 v = false ->
+    ls_get url_join url_basename ls name = Some v.
+  Proof.
+    intros ls name v H1 H2 H3.
+    rewrite (ls_get_nopolicy url_join url_basename ls name v H1 H2).
+    rewrite expand_locals_no_brace by exact H3. reflexivity.
+  Qed.
+
+  (* the recursion LocationSection.get -> self.get(name + ":policy") always ends:
+     the model's fuel is enough, and LocationSection.get satisfies its defining equation *)
+  Theorem C49_section_get_equation : forall ls name,
+    ls_get url_join url_basename ls name =
+    match lookup name (ls_opts ls) with
+    | None => None
+    | Some v =>
+        Some (expand_locals url_basename ls
+                match ls_get url_join url_basename ls (name ++ policy_suffix) with
+                | Some p => if str_eqb p appendpath then url_join v (ls_extra ls) else v
+                | None => v
+                end)
+    end.
+  Proof. exact (ls_get_eq url_join url_basename). Qed.
+
+  (* ---- the most specific matching section wins ------------------------------------------- *)
+  (* order: get_sections walks a permutation of the matching sections sorted by
+     (number of parts, id) descending -- ties on the number of parts are broken by
+     the section id compared as a string, greater id first (NOT by file order) *)
+  Theorem C49_order : forall st location,
+    StronglySorted ge_key (sort_desc (get_matching_sections url_basename st location)) /\
+    Permutation (sorted_sections url_basename st location)
+                (map snd (get_matching_sections url_basename st location)).
+  Proof.
+    intros. split; [apply sort_desc_sorted|apply sorted_sections_perm].
+  Qed.
+
+  (* ignore_parents: the visible sections are the longest prefix of that order
+     without a section whose ignore_parents is true; the cut INCLUDES that section *)
+  Theorem C49_ignore_parents : forall st location,
+    exists rest,
+      sorted_sections url_basename st location =
+        get_sections url_join url_basename st location ++ rest /\
+      Forall (fun s => ignores url_join url_basename s = false)
+             (get_sections url_join url_basename st location) /\
+      (rest = [] \/ exists r rest', rest = r :: rest' /\ ignores url_join url_basename r = true).
+  Proof. exact (get_sections_spec url_join url_basename). Qed.
+
+  (* soundness: a resolved value comes from a matching section that defines the
+     option and is not cut; every strictly more specific matching section neither
+     defines the option nor sets ignore_parents *)
+  Theorem C49_most_specific_wins : forall st location name v,
+    resolve_loc url_join url_basename st location name = Some v ->
+    exists n s,
+      In (n, s) (get_matching_sections url_basename st location) /\
+      ls_get url_join url_basename s name = Some v /\
+      ignores url_join url_basename s = false /\
+      forall n' s', In (n', s') (get_matching_sections url_basename st location) ->
+                    key_ltb (n, s) (n', s') = true ->
+                    ls_get url_join url_basename s' name = None /\
+                    ignores url_join url_basename s' = false.
+  Proof. exact (most_specific_wins url_join url_basename). Qed.
+
+  (* completeness: such a section always gives the value *)
+  Theorem C49_most_specific_wins_complete : forall st location name v n s,
+    In (n, s) (get_matching_sections url_basename st location) ->
+    ls_get url_join url_basename s name = Some v ->
+    ignores url_join url_basename s = false ->
+    (forall n' s', In (n', s') (get_matching_sections url_basename st location) ->
+                   key_ltb (n', s') (n, s) = false ->
+                   ignores url_join url_basename s' = false /\
+                   (ls_get url_join url_basename s' name = None \/
+                    ls_get url_join url_basename s' name = Some v)) ->
+    resolve_loc url_join url_basename st location name = Some v.
+  Proof. exact (most_specific_wins_complete url_join url_basename). Qed.
+
+  Theorem C49_unresolved : forall st location name,
+    resolve_loc url_join url_basename st location name = None <->
+    Forall (fun s => ls_get url_join url_basename s name = None)
+           (get_sections url_join url_basename st location).
+  Proof. exact (resolve_none url_join url_basename). Qed.
+
+  (* a value never comes from, or from below, a section with ignore_parents *)
+  Theorem C49_ignore_parents_cut : forall st location name v n0 s0,
+    resolve_loc url_join url_basename st location name = Some v ->
+    In (n0, s0) (get_matching_sections url_basename st location) ->
+    ignores url_join url_basename s0 = true ->
+    exists n s, In (n, s) (get_matching_sections url_basename st location) /\
+                ls_get url_join url_basename s name = Some v /\ s <> s0 /\
+                key_ltb (n, s) (n0, s0) = false.
+  Proof. exact (ignore_parents_cut url_join url_basename). Qed.
+
+  Theorem C49_ignore_parents_top : forall st location name n0 s0,
+    In (n0, s0) (get_matching_sections url_basename st location) ->
+    ignores url_join url_basename s0 = true ->
+    (forall n s, In (n, s) (get_matching_sections url_basename st location) ->
+                 (n, s) <> (n0, s0) -> key_ltb (n, s) (n0, s0) = true) ->
+    resolve_loc url_join url_basename st location name = None.
+  Proof. exact (ignore_parents_top url_join url_basename). Qed.
+End Env.
+Print Assumptions C49_matcher_uses_iter.
+Print Assumptions C49_extra_path.
+Print Assumptions C49_appendpath.
+Print Assumptions C49_relpath.
+Print Assumptions C49_plain_value_unchanged.
+Print Assumptions C49_section_get_equation.
+Print Assumptions C49_order.
+Print Assumptions C49_ignore_parents.
+Print Assumptions C49_most_specific_wins.
+Print Assumptions C49_most_specific_wins_complete.
+Print Assumptions C49_unresolved.
+Print Assumptions C49_ignore_parents_cut.
+Print Assumptions C49_ignore_parents_top.
+
+(* hypotheses are satisfiable / the theorems are not vacuous *)
+Example C49_examples :
+  (* specificity order incl. a tie, ignore_parents, appendpath + references *)
+  map (fun s => ls_id s)
+      (get_sections simple_join simple_basename
+         (mk_store (Some [(lit "foo", lit "0")])
+                   [(lit "/a", [(lit "foo", lit "1")]); (lit "/a/b", [(lit "foo", lit "2")]);
+                    (lit "/a/*", [(lit "foo", lit "3")]); (lit "/b", [(lit "foo", lit "4")])])
+         (lit "/a/b/c"))
+  = [lit "/a/b"; lit "/a/*"; lit "/a"; []].
+Proof. exact order_example. Qed.
+
+(* ---- the section named after a location --------------------------------------------------- *)
+(* Stack.set writes into the section NAMED location; for a glob-free location
+   that section matches the location, with empty extra_path *)
+Theorem C49_self_match_plain : forall loc,
+  Forall (fun s => plain s = true) (parts loc) ->
+  sec_match (parts loc) (parts loc) = true /\ extra_of (parts loc) (parts loc) = [].
+Proof. exact self_match_plain. Qed.
+Print Assumptions C49_self_match_plain.
+
+(* ... but NOT for every location: "/a/[!a]" read as a glob does not match itself,
+   so a value set through LocationStack("/a/[!a]") is not found by the same stack *)
+Theorem C49_self_match_refuted :
+  exists loc, sec_match (parts loc) (parts loc) = false /\
+              stack_get simple_join simple_basename
+                        (mk_store None [(loc, [(lit "foo", lit "x")])]) loc None (lit "foo") = None.
+Proof. exact self_match_refuted. Qed.
+Print Assumptions C49_self_match_refuted.
+
+(* StartingPathMatcher (an anchor; no stack uses it) matches on the whole strings
+   (str.startswith / one fnmatch over the path): it is NOT component-wise *)
+Theorem C49_starting_path_matcher_refuted :
+  exists st loc id extra,
+    In (id, extra) (spm_sections st loc) /\ sec_match (parts loc) (parts id) = false.
+Proof. exact spm_not_componentwise. Qed.
+Print Assumptions C49_starting_path_matcher_refuted.
+
+(* ---- values round-trip ---------------------------------------------------------------------
+   [cobj_quote] models ConfigObj._quote (environment), [unquote] is IniFileStore.unquote,
+   [set_get_mem v] = Stack.set then Stack.get on the same stack, [set_save_get v] =
+   Stack.set, save, Stack.get through a fresh stack ([file_raw] models what ConfigObj
+   writes and parses back; tied by the correspondence run only: hence _partial). *)
+
+(* the full statement ("any text value is read back unchanged") is FALSE: *)
+Theorem C49_store_roundtrip_refuted_newline :
+  exists v, value_safe v = true /\
+            set_get_mem v = Some ([34; 34] ++ v ++ [34; 34]) /\
+            set_save_get v = SOk ([34; 34] ++ v ++ [34; 34]) /\
+            set_get_mem v <> Some v /\ set_save_get v <> SOk v.
+Proof. exact roundtrip_refuted_newline. Qed.
+Print Assumptions C49_store_roundtrip_refuted_newline.
+
+Theorem C49_store_roundtrip_refuted_mixed_quotes :
+  exists v, value_safe v = true /\ memb cNL v = false /\
+            set_get_mem v = Some ([34; 34] ++ v ++ [34; 34]) /\
+            set_save_get v = SOk (removelast (tl v)) /\
+            set_get_mem v <> Some v /\ set_save_get v <> SOk v.
+Proof. exact roundtrip_refuted_mixed_quotes. Qed.
+Print Assumptions C49_store_roundtrip_refuted_mixed_quotes.
+
+(* guarded, with an executable guard, and exact for the in-memory path:
+   the value survives iff it has no newline and not both kinds of quote *)
+Theorem C49_store_roundtrip_guarded : forall v,
+  set_get_mem v = Some v <-> need_triple v = false.
+Proof. exact mem_roundtrip_iff. Qed.
+Print Assumptions C49_store_roundtrip_guarded.
+
+(* through the file: same guard; ConfigObj's write/parse is a model -> _partial *)
+Theorem C49_store_roundtrip_partial : forall v,
+  need_triple v = false -> set_save_get v = SOk v.
+Proof. exact file_roundtrip_guarded. Qed.
+Print Assumptions C49_store_roundtrip_partial.
+
+(* the breezy half alone: unquote undoes one pair of quotes, whatever is inside *)
+Theorem C49_unquote_inverts_quotes : forall q v,
+  q = cDQ \/ q = cSQ -> unquote (q :: v ++ [q]) = v.
+Proof. exact unquote_wrap. Qed.
+Print Assumptions C49_unquote_inverts_quotes.
+
+Example C49_roundtrip_example :
+  let v := lit " a,b#c=d\e 'f' " in
+  need_triple v = false /\ set_get_mem v = Some v /\ set_save_get v = SOk v /\
+  mem_raw v <> Some v.
+Proof. exact roundtrip_example. Qed.
